@@ -436,7 +436,15 @@ def run(chk):
         "functions that are declared but have no body in pack.c are outside the property's scope ('implemented operations')",
     ]
     chk.trusted_base += ["sa/domains/lanes.py (ByteLane transfer functions)"]
-    m = build.load_unit("librfn/pack.c")
+    run_build(chk, "default")
+    if chk.tier == "thorough":
+        chk.rule_prefix = "uchar."      # plain char unsigned, as on the ARM targets (rf_unpack_char, byte stores)
+        run_build(chk, "uchar")
+        chk.rule_prefix = ""
+
+
+def run_build(chk, cfg):
+    m = build.load_unit("librfn/pack.c", cfg)
     chk.note_unit(m)
     n_fn = n_fit = 0
     for fn in m.defined_functions():
